@@ -21,7 +21,7 @@ func init() {
 			"C15.4 tag table: within every wire struct (embedded structs flattened) bencode keys are unique and every field has a tag; " +
 			"C15.6 every error result returned anywhere under the krpc Marshal* methods is nil or handed up from a callee - none is constructed there - so encoding a message assembled by the handlers cannot fail (and MustMarshal in reply() cannot panic) because of a field value such as an out-of-range port taken from the wire; " +
 			"C15.7 in every library function with an error result that calls a krpc / bencode decoder, each return on a path on which that decoder reported an error carries a non-nil error (\"any other length is an error\" also at ReadNodesFromFile and the bencode entry points); " +
-			"C15.5 encoding is read-only on the message: in everything reachable from the krpc Marshal* methods no append, copy or element store has a destination that is (part of) a field of the value being encoded - append into a message slice would write its spare capacity, which may alias a neighbouring address; no value-receiver Marshal* method assigns to its receiver copy and NodeAddr's IP bytes reach its binary form verbatim (an encoder encodes the value it was handed, so decode→encode keeps the address form).",
+			"C15.5 encoding is read-only on the message: in everything reachable from the krpc Marshal* methods no append, copy or element store has a destination that is (part of) a field of the value being encoded - append into a message slice would write its spare capacity, which may alias a neighbouring address; no value-receiver Marshal* method assigns to its receiver copy and NodeAddr's IP bytes reach its binary form verbatim (an encoder encodes the value it was handed, so decode→encode keeps the address form); every index, slice and unchecked assertion in the encoder closure is in range (engine H), so re-encoding a decoded message cannot panic on an index.",
 		NotDecided: "round-trip identity and decode→encode fixpoint over all values (a value-level statement about the bencode library and net.IP forms); acceptance of every multiple-of-ElemSize input.",
 		Assume:     []string{"github.com/anacrolix/torrent/bencode re-panics runtime errors raised inside UnmarshalBencode callbacks (read in its decoder), so decoder guards are load-bearing"},
 		Rules: []*Rule{
@@ -595,6 +595,15 @@ func c15r5(w *World, rr *RuleRun) {
 	}
 	rr.ObligeTrivial("krpc", "encoder closure analysed", "-", true, fmt.Sprintf("%d Marshal* roots, %d reachable functions, %d destinations", len(roots), len(reach), nDest))
 	w.checkEncodersVerbatim(rr, roots)
+	// the encoders do not panic either: every index / slice / unchecked assertion in the encoder
+	// closure is in range by a length fact, a range index or a constant window (engine H)
+	seenB := map[*ssa.Function]bool{}
+	for _, f := range fns {
+		if !seenB[f] {
+			seenB[f] = true
+			w.CheckBounds(rr, f)
+		}
+	}
 }
 
 func (w *World) krpcMarshalRoots() []*ssa.Function {
